@@ -725,6 +725,14 @@ bufferevent_decref_and_unlock_(struct bufferevent *bufev)
 	if (bufev->be_ops->unlink)
 		bufev->be_ops->unlink(bufev);
 
+	/* Leave the rate-limit group now, not in the finalizer: until then the
+	 * group's refill timer would still find us among its members and
+	 * unsuspend us, which re-adds the very events that are about to be
+	 * freed. */
+	if (bufev_private->rate_limiting &&
+	    bufev_private->rate_limiting->group)
+		bufferevent_remove_from_rate_limit_group_internal_(bufev, 0);
+
 	/* Okay, we're out of references. Let's finalize this once all the
 	 * callbacks are done running. */
 	cbs[0] = &bufev->ev_read.ev_evcallback;
